@@ -414,7 +414,7 @@ func (f *memdbFam) Gen(r *hx.Run) {
 		}
 		alpha = append(alpha, "del "+k)
 	}
-	maxL := r.Pick(3, 5)
+	maxL := r.Pick(4, 5)
 	var rec func(seq []string)
 	id := 0
 	rec = func(seq []string) {
@@ -434,7 +434,7 @@ func (f *memdbFam) Gen(r *hx.Run) {
 	}
 	rec(nil)
 	// (b) random with live iterators
-	n := r.Pick(2500, 120000)
+	n := r.Pick(6000, 120000)
 	for c := 0; c < n; c++ {
 		r.Case(fmt.Sprintf("rnd-%d", c))
 		L := 10 + r.Rng.Intn(40)
